@@ -478,6 +478,21 @@ pub fn future_programs(thorough: bool) -> Vec<Program> {
             out.push(lockstep(&name("eop"), &s));
         }
     }
+    // many polls (a dozen Pending polls before completion), in_span with an inner enter_on_poll and
+    // enter_on_poll alone, migrating between two threads every third poll
+    for eop in [false, true] {
+        let polls = 12u32;
+        let mut s: Vec<(usize, Op)> = vec![(0, root(0, "r", 0x13)), (0, child(1, "c", 0))];
+        s.push((0, Op::MkInSpan { fut: 0, slot: 1, polls, tag: "f".into(), inner_enter_on_poll: eop }));
+        for i in 0..polls {
+            let a = ((i / 3) % 2) as usize;
+            s.push((a, Op::ObserveLocal));
+            s.push((a, Op::Poll { fut: 0 }));
+        }
+        s.push((0, Op::DropFut { fut: 0 }));
+        s.push((0, finish(0)));
+        out.push(lockstep(&name("long"), &s));
+    }
     // enter_on_poll polled under a different local context every time: no local parent, a sampled
     // scope, an unsampled scope (what one poll found must not be remembered for the next)
     for polls in 2..=3u32 {
@@ -552,6 +567,36 @@ pub fn stream_sink_programs(thorough: bool) -> Vec<Program> {
                 }
             }
         }
+    }
+    // long runs: a stream of a dozen items (first poll pending), a sink that is sent a dozen items
+    // with a flush after every fourth
+    {
+        let mut s: Vec<(usize, Op)> = vec![(0, root(0, "r", 0x14)), (0, child(1, "c", 0))];
+        s.push((0, Op::MkStream { fut: 0, slot: 1, items: 12, pending_first: true, tag: "st".into() }));
+        for i in 0..14 {
+            let a = ((i / 4) % 2) as usize;
+            s.push((a, Op::ObserveLocal));
+            s.push((a, Op::PollNext { fut: 0 }));
+        }
+        s.push((0, Op::DropFut { fut: 0 }));
+        s.push((0, finish(0)));
+        out.push(lockstep(&name("stream-long"), &s));
+        let mut s: Vec<(usize, Op)> = vec![(0, root(0, "r", 0x15)), (0, child(1, "c", 0))];
+        s.push((0, Op::MkSink { fut: 0, slot: 1, tag: "sk".into(), pending_first: true, failing: false }));
+        for i in 0..12 {
+            s.push((0, Op::SinkReady { fut: 0 }));
+            s.push((0, Op::SinkSend { fut: 0 }));
+            if i % 4 == 3 {
+                s.push((0, Op::ObserveLocal));
+                s.push((0, Op::SinkFlush { fut: 0 }));
+            }
+        }
+        s.push((0, Op::SinkClose { fut: 0 }));
+        s.push((0, Op::ObserveLocal));
+        s.push((0, Op::SinkClose { fut: 0 }));
+        s.push((0, Op::DropFut { fut: 0 }));
+        s.push((0, finish(0)));
+        out.push(lockstep(&name("sink-long"), &s));
     }
     // adapters with an unsampled span used inside a sampled scope
     for items in 0..=1u32 {
@@ -1286,6 +1331,46 @@ pub fn late_push_programs() -> Vec<Program> {
                 }
             }
         }
+    }
+    // a large captured set: 20 local spans (nesting depth 5, attachments on most of them, the last
+    // two left open) pushed to four spans in four traces, converted directly as well
+    {
+        idx += 1;
+        let mut ops = vec![Op::LcStart];
+        for d in 0..5 {
+            ops.push(lenter(&format!("n{d}")));
+            ops.push(lprop(&format!("n{d}.k"), &format!("n{d}.v")));
+        }
+        for _ in 0..5 {
+            ops.push(levent("deep.e"));
+            ops.push(pop());
+        }
+        for k in 0..13 {
+            ops.push(lenter(&format!("w{k}")));
+            if k % 2 == 0 {
+                ops.push(levent(&format!("w{k}.e")));
+            }
+            ops.push(pop());
+        }
+        ops.push(lenter("open1"));
+        ops.push(lenter("open2"));
+        ops.push(Op::LcCollect { set: 0 });
+        ops.push(root(10, "r0", 0x17C));
+        ops.push(root(11, "r1", 0x17D));
+        ops.push(root(12, "r2", 0x17E));
+        ops.push(root(13, "r3", 0x17F));
+        ops.push(child(20, "c0", 10));
+        ops.push(child(21, "c1", 11));
+        // (four different traces: two copies in one trace are known finding K1)
+        for slot in [13u32, 20, 21, 12] {
+            ops.push(Op::PushChildSpans { set: 0, slot });
+        }
+        ops.push(Op::ToRecords { set: 0, trace: U128(0xEE), span_id: 0x99 });
+        ops.push(Op::DropSet { set: 0 });
+        for slot in [20u32, 21, 10, 11, 12, 13] {
+            ops.push(finish(slot));
+        }
+        out.push(Program::new(format!("C17-late#{idx}")).worker("A", ops));
     }
     // pushed to a span that itself has several parents: roots with different trace ids, and roots
     // that carry the same trace id (two requests continuing one distributed trace); directly and to
